@@ -81,22 +81,37 @@ theorem md5Field_total (val : Bytes) : (md5Field val).isPanic = false := by
 
 theorem lineTag_total (l : Bytes) : (lineTag l).isPanic = false := by
   unfold lineTag
-  simp only
-  generalize (if 0 < l.length ∧ l.getLast? = some 13 then l.take (l.length - 1) else l) = l'
-  split
-  · rfl
-  · rename_i h0
-    rw [index_of_lt _ l' 0 (by omega)]
-    simp only
+  apply bind_total
+  · unfold stripCRIdx
+    split
+    · rename_i hpos
+      have hi : indexInt "sam.Header.UnmarshalText:l[len(l)-1]" l ((l.length : Int) - 1) = ok (l[l.length - 1]'(by omega)) := by
+        unfold indexInt
+        rw [if_neg (by omega)]
+        have : ((l.length : Int) - 1).toNat = l.length - 1 := by omega
+        rw [this, index_of_lt _ _ _ (by omega)]
+      rw [hi]
+      simp only
+      split
+      · rw [sliceTo_of_le _ _ _ (by omega)]; rfl
+      · rfl
+    · rfl
+  · intro l' _
+    unfold lineTagBody
     split
     · rfl
-    · rename_i h
-      have h3 : 3 ≤ l'.length := by
-        rcases Nat.lt_or_ge l'.length 3 with h1 | h1
-        · exact absurd (Or.inr h1) h
-        · exact h1
-      rw [slice_of_le _ l' 1 3 (by omega) h3]
-      rfl
+    · rename_i h0
+      rw [index_of_lt _ l' 0 (by omega)]
+      simp only
+      split
+      · rfl
+      · rename_i h
+        have h3 : 3 ≤ l'.length := by
+          rcases Nat.lt_or_ge l'.length 3 with h1 | h1
+          · exact absurd (Or.inr h1) h
+          · exact h1
+        rw [slice_of_le _ l' 1 3 (by omega) h3]
+        rfl
 
 theorem lookupName_mem (seen : List (Bytes × Nat)) (name : Bytes) (id : Nat)
     (h : lookupName seen name = some id) : ∃ p ∈ seen, p.2 = id := by
@@ -114,17 +129,18 @@ theorem addRef_spec (t : RefTable) (hwf : t.wf) (name : Bytes) (same replaceable
       ∃ t', addRef t name same replaceable complete = ok t' ∧ t'.wf := by
   unfold addRef
   split
-  · rename_i dupID hd
-    obtain ⟨p, hp, hpid⟩ := lookupName_mem _ _ _ hd
-    have hlt : dupID < t.nrefs := by rw [← hpid]; exact hwf p hp
-    rw [index_of_lt _ _ dupID (by simpa using hlt)]
-    simp only
-    split
-    · exact Or.inr ⟨t, rfl, hwf⟩
-    · split
-      · exact Or.inr ⟨t, rfl, hwf⟩
-      · exact Or.inl rfl
+  · exact Or.inl rfl
   · split
+    · rename_i dupID hd
+      obtain ⟨p, hp, hpid⟩ := lookupName_mem _ _ _ hd
+      have hlt : dupID < t.nrefs := by rw [← hpid]; exact hwf p hp
+      rw [index_of_lt _ _ dupID (by simpa using hlt)]
+      simp only
+      split
+      · exact Or.inr ⟨t, rfl, hwf⟩
+      · split
+        · exact Or.inr ⟨t, rfl, hwf⟩
+        · exact Or.inl rfl
     · right
       refine ⟨_, rfl, ?_⟩
       intro p hp
@@ -134,6 +150,5 @@ theorem addRef_spec (t : RefTable) (hwf : t.wf) (name : Bytes) (same replaceable
       · have := hwf p h
         simp only
         omega
-    · exact Or.inl rfl
 
 end Hts.Model.Decoders
